@@ -28,6 +28,9 @@ func buildExchange(rng *rand.Rand, kind string, fc int, sizeClass int) exchange 
 	tid := tidv(rng)
 	unit := u8(rng)
 	addr := u16(rng)
+	if rng.Intn(5) == 0 {
+		addr = 0 // the first address: the reply to a write then has 00 00 where other frames have a protocol id
+	}
 	qty, state, waddr := 0, false, 0
 	data, coils := "-", "-"
 	var pdu []byte
@@ -74,12 +77,17 @@ func buildExchange(rng *rand.Rand, kind string, fc int, sizeClass int) exchange 
 		if sizeClass == 0 {
 			n = 1
 		}
-		pdu = append([]byte{17, byte(n)}, rbytes(rng, n)...)
-		pdu = append(pdu, byte(rng.Intn(2)*255))
 		extra := rng.Intn(8)
 		if sizeClass == 0 {
 			extra = 0
 		}
+		if sizeClass == 1 {
+			// the longest frame there is: a PDU of 253 bytes (256 bytes on the serial line, 260 over TCP)
+			n = 1 + rng.Intn(200)
+			extra = 250 - n
+		}
+		pdu = append([]byte{17, byte(n)}, rbytes(rng, n)...)
+		pdu = append(pdu, byte(rng.Intn(2)*255))
 		pdu = append(pdu, rbytes(rng, extra)...)
 	case 23:
 		qty = pickQ(124)
@@ -258,6 +266,16 @@ func genFragmentations(tier string, rng *rand.Rand, shard, nshards int, hooks in
 								c := 1 + rng.Intn(n-1)
 								emit(doOp(ex, hooks, fl, R, "d:"+hx(R[:c])+";sd:"+hx(R[c:])))
 							}
+						}
+						// a well-formed reply that names another unit than the request (a gateway forwarding somebody else's answer):
+						// whatever the client makes of it, every byte read is part of what the hooks and the parser are given
+						if kind == "t" && n > 7 {
+							other := append([]byte{}, R...)
+							other[6] ^= byte(1 + rng.Intn(255))
+							emit(doOp(ex, hooks, fl, R, "d:"+hx(other)))
+							c := 1 + rng.Intn(n-1)
+							emit(doOp(ex, hooks, fl, R, "d:"+hx(other[:c])+";d:"+hx(other[c:])))
+							emit(doOp(ex, hooks, fl, R, "d:"+hx(other)+";d:"+hx(R)))
 						}
 						// stray bytes behind the reply in the same read
 						if kind != "t" && rng.Intn(2) == 0 {
